@@ -120,7 +120,8 @@ def eval_invocation(args, excl):
     from codelimit.common.CheckResult import CheckResult
 
     out = []
-    with harness.temp_tree() as root:
+    # two of the exclusion configurations run in a checkout that lies BELOW a hidden directory (hidden-ness is relative to the root)
+    with harness.temp_tree(under=".cache/ws" if excl in ("config", "gitignore-negation") else None) as root:
         setup(root, excl)
         ref = reference(root, excl)
         paths = [Path(r) if mode == "rel" else (root / r if r != "." else root) for mode, r in args]
